@@ -41,6 +41,9 @@ pub const MARKERS: &[MarkerInfo] = &[
     MarkerInfo { name: "m", regex: "[a-z]+", accept: &["abc", "z"], reject: &["1", ""] },
     MarkerInfo { name: "w", regex: "\\w+", accept: &["caf\u{e9}", "x1", "\u{664}2"], reject: &["-", "a-b"] },
     MarkerInfo { name: "d", regex: "\\d+", accept: &["12", "\u{664}"], reject: &["x", "1x"] },
+    MarkerInfo { name: "nd", regex: "\\D+", accept: &["ab", "x-y"], reject: &["1", "a1"] },
+    MarkerInfo { name: "par", regex: "[)a-z]+", accept: &["foo", "a)b"], reject: &["1", "A"] },
+    MarkerInfo { name: "opar", regex: "[(a-z]+", accept: &["foo", "a(b"], reject: &["1", "A"] },
     MarkerInfo { name: "bad", regex: "([a-z", accept: &["x"], reject: &["x"] },
 ];
 
@@ -101,8 +104,8 @@ pub fn instantiate(t: &str, pickn: u16, reject_one: bool) -> String {
 
 // ---------------------------------------------------------------------------------------------
 // trigger pools
-pub const HOSTS: &[&str] = &["example.com", "Example.COM", "www.example.com", "example.org", "@sub.example.com", "www.@dom.@tld", "xn--bcher-kva.example", "@sub.example.org", "b\u{fc}cher.@tld", "b\u{e4}cker.@tld", "@w.example.net", "@d.example.net"];
-pub const REQ_HOSTS: &[&str] = &["example.com", "EXAMPLE.com", "Example.COM", "www.example.com", "example.org", "sub1.example.com", "www.foo.com", "www.my-site.net", "other.test", "a.example.org", "SUB1.example.com", "xn--bcher-kva.example", "b\u{fc}cher.com", "b\u{e4}cker.net", "B\u{dc}CHER.com", "caf\u{e9}.example.net", "\u{664}.example.net", "x1.example.net", ""];
+pub const HOSTS: &[&str] = &["example.com", "Example.COM", "www.example.com", "example.org", "@sub.example.com", "www.@dom.@tld", "xn--bcher-kva.example", "@sub.example.org", "b\u{fc}cher.@tld", "b\u{e4}cker.@tld", "@w.example.net", "@d.example.net", "@sub.example.com.au"];
+pub const REQ_HOSTS: &[&str] = &["example.com", "EXAMPLE.com", "Example.COM", "www.example.com", "example.org", "sub1.example.com", "www.foo.com", "www.my-site.net", "other.test", "a.example.org", "SUB1.example.com", "xn--bcher-kva.example", "b\u{fc}cher.com", "b\u{e4}cker.net", "B\u{dc}CHER.com", "caf\u{e9}.example.net", "\u{664}.example.net", "x1.example.net", "sub1.example.com.au", ""];
 
 pub struct CidrInfo {
     pub cidr: &'static str,
@@ -188,10 +191,15 @@ pub const PATHS: &[(&str, Option<&str>)] = &[
     ("/foo", Some("a=@id")),
     ("/pets/@pet", None),
     ("/foo/@bad", None),
+    ("/n/@d", None),
+    ("/n/@nd", None),
+    ("/x/@par/a", None),
+    ("/x/@par/b", None),
+    ("/x/@opar/a", None),
 ];
 pub const REQ_PATHS: &[&str] = &[
     "/", "/foo", "/Foo", "/FOO", "/foo/bar", "/foo/bar/baz", "/a.b", "/axb", "/foo?a=1&b=2", "/foo?a=1", "/foo?a=2", "/foo/42", "/foo/abc", "/en/foo/1", "/es/foo/1", "/p/foo-7",
-    "/p/foo-x", "/foo/42/bar", "/foo/ab-c", "/Foo/ABC", "/foo/ABC", "/foo/a.B-1", "/foo?a=42", "/pets/cat", "/pets/cow", "/nothing/here", "/foo/", "/foo/x",
+    "/p/foo-x", "/foo/42/bar", "/foo/ab-c", "/Foo/ABC", "/foo/ABC", "/foo/a.B-1", "/foo?a=42", "/pets/cat", "/pets/cow", "/nothing/here", "/foo/", "/foo/x", "/n/42", "/n/ab", "/x/foo/a", "/x/foo/b", "/x/a)b/b",
 ];
 
 // ---------------------------------------------------------------------------------------------
@@ -347,6 +355,10 @@ pub fn action_part_strategy(opts: RuleOpts) -> BoxedStrategy<ActionPart> {
         (2, (Some(vec![404u16]), None)),
         (2, (Some(vec![200, 404]), None)),
         (1, (Some(vec![500]), None)),
+        // not in ascending order (nothing sorts these lists)
+        (1, (Some(vec![404, 200]), None)),
+        (1, (Some(vec![503, 404, 410, 500, 403]), None)),
+        (1, (Some(vec![503, 404, 410, 500, 403]), Some(true))),
         (2, (Some(vec![404]), Some(true))),
         (1, (Some(vec![200, 404]), Some(true))),
         (1, (Some(vec![404]), Some(false))),
